@@ -72,6 +72,62 @@ def run(check, prog):
     channel_selection(check, prog)
     tiff_scaling(check, prog)
     depth_options(check, prog)
+    load_unpacks(check, prog)
+
+
+def load_unpacks(check, prog):
+    """U8: what `load` hands back carries *unpacked* metadata: on the HDF5 path every
+    data variable's attrs are replaced by unpack_attrs of themselves, on the TIFF
+    path the image's attrs are unpack_attrs of the parsed description -- and the
+    image is read with the name and spacing stored in that description, all
+    colour planes."""
+    q = IO + 'load'
+    fd = prog.func(q)
+    loc = prog.loc(q, fd)
+    it = Interp(prog, max_depth=1, opaque=[IO + 'load_image', IO + 'unpack_attrs'])
+    it.analyze(q)
+    st = [e for e in it.effects if e['kind'] == 'setattr' and e['attr'] == 'attrs']
+    hdf = tif = None
+    for e in st:
+        v = e['value']
+        while v[0] == 'copy':
+            v = v[-1]
+        if not (v[0] == 'call' and v[1] == IO + 'unpack_attrs' and len(v[2]) == 1):
+            continue
+        arg = v[2][0]
+        if arg[0] == 'attr' and arg[2] == 'attrs':
+            # the variable's own attrs, for every variable of the loop
+            own = arg[1]
+            base = e['base']
+            if own == base and any(t[0] == 'loop-iter' for t, p in e['cond']):
+                hdf = e
+        elif arg[0] == 'call' and arg[1] == 'yaml.safe_load':
+            tif = (e, arg)
+    check.require(hdf is not None, 'U8-load-unpacks', 'load (HDF5)',
+                  'for every data variable: attrs := unpack_attrs(its attrs)', loc,
+                  fail_detail='no such store: the loaded array keeps the packed text '
+                  'form of its metadata')
+    check.require(tif is not None, 'U8-load-unpacks', 'load (TIFF with metadata)',
+                  'attrs := unpack_attrs(the parsed image description)', loc,
+                  fail_detail='no such store: the reloaded image has no metadata')
+    li = [c for c in it.calls if c['name'] == IO + 'load_image']
+    ok = len(li) == 1 and tif is not None
+    detail = ''
+    if ok:
+        meta = tif[1]
+        c = li[0]
+        kws = dict(c['kwargs'])
+        sp = c['args'][1] if len(c['args']) > 1 else kws.get('spacing')
+        ok = sp == intern(('idx', meta, ('const', 'spacing'))) and \
+            kws.get('name', c['args'][2] if len(c['args']) > 2 else None) == \
+            intern(('idx', meta, ('const', 'name'))) and \
+            kws.get('channel') == ('const', 'all')
+        detail = 'load_image(%s; %s)' % (
+            [show(a)[-40:] for a in c['args']], [(k, show(v)[-40:]) for k, v in
+                                                 c['kwargs']])
+    check.require(ok, 'U8-load-unpacks', 'load (TIFF) raster',
+                  'the raster is read with the stored spacing and name, all planes', loc,
+                  fail_detail=detail)
 
 
 def metadata_edit(check, prog):
@@ -221,7 +277,11 @@ def attrs_tables(check, prog):
     top = [e for e in stores if level(e['base']) == 0 and e['key'][0] != 'const']
     plain = [e for e in top if calls_in(e['value'], 'yaml.dump')]
     arrays = [e for e in top if not calls_in(e['value'], 'yaml.dump')]
-    check.floor('plain-attribute stores in pack_attrs', len(plain), 1)
+    check.need('plain-attribute stores in pack_attrs', len(plain), 1,
+               'U2-writer-keeps-non-None', 'pack_attrs plain attributes',
+               'plain (non-array) attributes are written as YAML text', loc,
+               missing='no store of yaml.dump(val) into the packed mapping: plain '
+               'metadata (medium index, wavelength, noise level) is not saved')
     for e in plain:
         dumped = calls_in(e['value'], 'yaml.dump')[0][2][0]
 
@@ -1299,7 +1359,10 @@ def tiff_scaling(check, prog):
                                   'dtype: an int8 image spanning [-100, 99] wraps to '
                                   'negative values and is exported scrambled' %
                                   ast.unparse(v_)[:80])
-        check.floor('stretch statements in display_image', nstretch, 1)
+        check.need('stretch statements in display_image', nstretch, 1,
+                   'U6-tiff-scaling', 'display_image stretch',
+                   'the image is mapped onto [0, 1] by (im - s0) / (s1 - s0) when a '
+                   'scaling applies', prog.loc(q2, fd2))
 
 
 def depth_options(check, prog):
